@@ -198,7 +198,13 @@ fn deep(kind: usize, depth: usize) -> (String, &'static str) {
         4 => (format!("package a:b; let x = y{};", ".z".repeat(depth)), "long-access-chain"),
         5 => (format!("package a:b; type t = {}u8{};", "tuple<".repeat(depth), ">".repeat(depth)), "nested-tuple-type"),
         6 => (format!("package a:b; import x: {} {};", "interface { y: ".repeat(1), "func(); }"), "inline-interface"),
-        _ => (format!("package a:b; type t = {}u8{};", "option<result<".repeat(depth), ">>".repeat(depth)), "nested-option-result"),
+        7 => (format!("package a:b; type t = {}u8{};", "option<result<".repeat(depth), ">>".repeat(depth)), "nested-option-result"),
+        8 => (format!("package a:b; type t = {}u8{};", "result<_, ".repeat(depth), ">".repeat(depth)), "nested-result-error-position"),
+        9 => (format!("package a:b; type t = {}u8{};", "result<".repeat(depth), ", u8>".repeat(depth)), "nested-result-ok-position"),
+        10 => (format!("package a:b; type t = {}u8{};", "tuple<u8, ".repeat(depth), ">".repeat(depth)), "nested-tuple-last-position"),
+        11 => (format!("package a:b; import f: func(a: {}u8{}) -> {}u8{};", "list<".repeat(depth), ">".repeat(depth), "option<".repeat(depth), ">".repeat(depth)), "nested-types-in-a-function-signature"),
+        12 => (format!("package a:b; let x = new a:b {{ z: {}y{} }};", "(".repeat(depth), ")".repeat(depth)), "nested-parens-in-an-argument"),
+        _ => (format!("package a:b; interface i {{ record r {{ f: {}u8{} }} }}", "list<".repeat(depth), ">".repeat(depth)), "nested-type-in-a-record-field"),
     }
 }
 
@@ -413,7 +419,7 @@ pub fn run(ctx: &mut Ctx) {
     // D: deep nesting at fixed depths (deterministic; run first so a crash is attributed cleanly)
     let depths: &[usize] = if lane.is_some() { &[] } else { &[10usize, 100, 1_000, 5_000, 20_000, 100_000] };
     let mut dcase = crate::witness::WITNESS_BASE;
-    for kind in 0..8usize {
+    for kind in 0..14usize {
         for d in depths.iter().copied() {
             dcase += 1;
             if !ctx.mine(dcase) {
